@@ -183,3 +183,24 @@ func Fresh(name string, n int) []byte {
 	copy(b, name)
 	return b
 }
+
+// CrashPoints enables up to n simulated crashes at file-system / environment mutation points (engine only).
+func CrashPoints(n int) {}
+
+// Crashed reports whether a simulated crash has happened and Reboot has not been called yet.
+func Crashed() bool { return false }
+
+// Reboot ends a simulated crash: unsynced file tails are resolved, file operations work again.
+func Reboot() {}
+
+// CrashNow is an explicit crash point for harness-provided environment objects.
+func CrashNow(name string) {}
+
+// TempDir returns a fresh directory (engine: in the modelled file system; natively: a real one).
+func TempDir() string {
+	d, err := os.MkdirTemp("", "vp")
+	if err != nil {
+		panic(err)
+	}
+	return d
+}
